@@ -21,7 +21,7 @@ namespace Asn1Verif.Front.Syn
 
 def canonSize : Size USz → Size USz
   | .range a b e =>
-    if a = .lit 0 ∧ b = .lit SIZE_MAX then .any
+    if a = .lit 0 ∧ b = .lit SIZE_MAX ∧ e = false then .any
     else if a = b then .fix a e
     else .range a b e
   | s => s
@@ -96,7 +96,7 @@ def sizeWf : Size USz → Bool
   | .any => true
   | .fix n _ => sizeAtomWf "MIN" n
   | .range a b e =>
-    sizeAtomWf "MIN" a && sizeAtomWf "MAX" b && !(a == .lit 0 && b == .lit SIZE_MAX && e)
+    sizeAtomWf "MIN" a && sizeAtomWf "MAX" b
 
 def extWf (e : Option Nat) (len : Nat) : Bool :=
   match e with
